@@ -130,7 +130,7 @@ func Collect(o *Outcome) {
 		r, err := p.Result()
 		if r != nil {
 			o.Results[id] = r
-		} else if err != nil && err.Error() == "protocol: not finished" {
+		} else if drv.IsNotFinished(err) {
 			o.Stuck = append(o.Stuck, id)
 		} else {
 			o.Errors[id] = err
